@@ -51,7 +51,9 @@ class InitMethod(MethodDescriptor):
             )
             for parent in reversed(spec_cls.mro()[1:]):
                 parent_metadata = getattr(parent, "__spec_class__", None)
-                if parent_metadata:
+                # Plain subclasses inherit the metadata (and constructor) of
+                # the spec class they derive from, which has its own turn.
+                if parent_metadata and parent_metadata.owner is parent:
                     parent_kwargs = {}
                     for attr in parent_metadata.attrs:
                         instance_attr_spec = instance_metadata.attrs[attr]
